@@ -543,6 +543,7 @@ init_mem_pagemap(kdump_ctx_t *ctx)
 		return set_error(ctx, KDUMP_ERR_SYSTEM,
 				 "Cannot allocate memory pagemap");
 	val.bitmap->priv = ctx->shared;
+	bmp_bind_format(val.bitmap, ctx->shared);
 	shared_incref_locked(ctx->shared);
 
 	attr_add_override(attr, &sp->mem_pagemap_override);
@@ -1155,6 +1156,7 @@ sadump_probe(kdump_ctx_t *ctx)
 				 "Cannot allocate file pagemap");
 	}
 	bmp->priv = ctx->shared;
+	bmp_bind_format(bmp, ctx->shared);
 	shared_incref_locked(ctx->shared);
 	set_file_pagemap(ctx, bmp);
 
